@@ -146,7 +146,8 @@ class Lib:
         S.append((path(r"^<std::vec::Vec<T, A> as std::ops::Deref>::deref$|^<std::vec::Vec<T, A> as std::ops::DerefMut>::deref_mut$|^std::vec::Vec::<T, A>::as_slice$|^std::vec::Vec::<T, A>::as_mut_slice$"), self.deref))
         S.append((path(r"^core::slice::<impl \[T\]>::last$"), self.last))
         S.append((path(r"^core::slice::<impl \[T\]>::get_mut$|^core::slice::<impl \[T\]>::get$"), self.get))
-        S.append((path(r"^<&'a (mut )?std::vec::Vec<T, A> as std::iter::IntoIterator>::into_iter$|^core::slice::<impl \[T\]>::iter(_mut)?$|^std::vec::Vec::<T, A>::iter(_mut)?$"), self.slice_iter))
+        S.append((path(r"^<&'a (mut )?std::vec::Vec<T, A> as std::iter::IntoIterator>::into_iter$|^<&'a (mut )?\[T\] as std::iter::IntoIterator>::into_iter$|^core::slice::iter::<impl std::iter::IntoIterator for &'a (mut )?\[T\]>::into_iter$|^core::slice::<impl \[T\]>::iter(_mut)?$|^std::vec::Vec::<T, A>::iter(_mut)?$"), self.slice_iter))
+        S.append((path(r"^<std::vec::Vec<T, A> as std::ops::Index(Mut)?<I>>::index(_mut)?$"), self.vec_index))
         S.append((path(r"^<std::slice::Iter(Mut)?<'a, T> as std::iter::Iterator>::next$"), self.slice_iter_next))
         S.append((path(r"^<std::slice::Iter(Mut)?<'a, T> as std::iter::DoubleEndedIterator>::next_back$"), self.slice_iter_next_back))
         S.append((path(r"^core::slice::<impl \[T\]>::first$"), self.first))
@@ -334,6 +335,19 @@ class Lib:
             st.heap[oid] = AVec(m.items[:i] + m.items[i + 1:], m.role)
             st.emit("vec_remove", oid, i)
             return m.items[i]
+        return NotImplemented
+
+    def vec_index(self, it, st, inst, args, call):
+        try:
+            oid = _obj_of(it, st, args[0], "index")
+        except Undecided:
+            return NotImplemented
+        m = st.heap[oid]
+        if isinstance(m, AVec) and isinstance(args[1], Conc):
+            if args[1].v >= len(m.items):
+                st.outcome = ("panic", {"kind": "index out of bounds", "inst": call["frame"].inst, "bb": call["frame"].bb})
+                return [(st, UNIT)]
+            return Ref(("H", oid), (("el", args[1].v),))
         return NotImplemented
 
     def vec_swap_remove(self, it, st, inst, args, call):
